@@ -33,6 +33,7 @@ static int do_replay(const char *path) {
 	for (size_t i = 0; i < jn; i++) job[i] = (uint8_t) (hexval(hex[2 * i]) * 16 + hexval(hex[2 * i + 1]));
 	run_fn fn = harness_find(harness);
 	if (!fn) { fprintf(stderr, "unknown harness %s\n", harness); return 2; }
+	setenv("VERIF_IN_REPLAY", "1", 1);   /* harnesses may print their full observation (X lines) when replayed */
 	run_init(1, 120);
 	int reproduced = 0; char *first = NULL;
 	for (int k = 0; k < 2; k++) {
